@@ -62,6 +62,7 @@ def crcvStore (single : Bool) (cap : Nat) (junk : UInt8) (lg : Crcv) (num m szx 
     (offset size2 fmt : Nat) : Option Crcv × CrcvOut :=
   let chunk := 2 ^ (szx + 4)
   if fmt ≠ lg.fmt then (some lg, .err408)                         -- "Content-Format option mismatch"
+  else if szx ≠ lg.szx then (some lg, .err408)                    -- "Block size changed during transfer"
   else if checkIfReceived lg.recv num then (some lg, .skip)       -- updated_block = 0
   else
     match updateReceived cap lg.recv num with
@@ -81,7 +82,12 @@ def crcvStore (single : Bool) (cap : Nat) (junk : UInt8) (lg : Crcv) (num m szx 
         let lg' : Crcv := { lg with recv := rec', body := b' }
         if m ≠ 0 ∨ ¬ checkAllBlocksIn rec' ((size2 + chunk - 1) / chunk) then
           -- "Not all the payloads of the body have arrived": if (block.m) ask for block NUM + 1 with the same SZX
-          if single then (some lg', if m ≠ 0 then .next (num + 1) szx else .wait)
+          -- else if (lg_crcv->body_data && length % chunk && block_opt == COAP_OPTION_BLOCK2): "Short packet is not the
+          -- end of the body": lg_crcv->initial = 1, fail_resp (body_data is set exactly in single-body mode)
+          if single then
+            if m ≠ 0 then (some lg', .next (num + 1) szx)
+            else if data.length % chunk ≠ 0 then (some { lg' with initial := true }, .err408)
+            else (some lg', .wait)
           else (some lg', .block offset payload size2 (if m ≠ 0 then some (num + 1, szx) else none))
         else if single then (none, .body (b'.getD []) (offset + data.length))   -- body_length = saved_offset + length
         else (none, .last offset payload size2)
